@@ -2,6 +2,12 @@ import LitexProofs.Periph.Timers
 import LitexProofs.Periph.UartRx
 import LitexProofs.Periph.Spi
 import LitexProofs.Periph.I2c
+import LitexProofs.Periph.Loopback
+import LitexProofs.Periph.Tolerance
+import LitexProofs.Periph.UartIdle
+import LitexProofs.Periph.SpiCount
+import LitexProofs.Periph.SpiSlave
+import LitexProofs.Periph.I2cWrite
 /-
   C19 — Serial peripherals and timers produce exact waveforms and always finish.
 
@@ -480,5 +486,169 @@ example :
     let s1 := i2cNext 2 s0 { idle with write := true }
     i2cRank s1 = 19 ∧ (runFn (i2cMachine 2) s1 (fun _ => idle) 36).fsm ≠ .idle ∧
     (runFn (i2cMachine 2) s1 (fun _ => idle) 37).fsm = .idle := by decide +kernel
+
+/-! ## UART: idle level, loopback, rate tolerance -/
+
+/-- In every reachable state of the transmitter: IDLE ⇒ the line is high (the line is low only inside a frame; between
+    back-to-back bytes there is the full stop bit plus at least one idle cycle, by `uart_tx_frame`). -/
+theorem uart_tx_idle_high (tw : Nat) (ins : List TxIn) (h : ((uartTx tw).run ins).run = false) :
+    ((uartTx tw).out ((uartTx tw).run ins) ⟨false, 0⟩).tx = true :=
+  tx_idle_high tw ins h
+
+/-- **uart_loopback_partial.**  TX pad wired to RX pad, same clock, equal tuning words, at least four cycles per
+    bit (`4·tw ≤ 2^32`).  The transmitter accepts byte `d` in cycle 0 (any later sink inputs, also a back-to-back next
+    byte); the receiver was idle with the line high.  Then the receiver produces exactly one byte, `d`, in cycle
+    `4 + ⌈9.5·2^32/tw⌉`, and nothing before.
+    Full statement (any `tw`) is false: at two cycles per bit the sample points land in the neighbouring bit, see
+    the witness below. -/
+theorem uart_loopback_partial (tw : Nat) (h0 : 0 < tw) (h4 : 4 * tw ≤ M32) (sT : TxSt) (hTrun : sT.run = false)
+    (hTtx : sT.tx = true) (f : Nat → TxIn) (hv : (f 0).valid = true) (hd : (f 0).data < 256)
+    (sR : RxSt) (hRrun : sR.run = false) (hr0 : sR.r0 = true) (hrx : sR.rx = true) (hrxd : sR.rxD = true)
+    (hdat : sR.data < 256) :
+    let pad := txPad tw sT f
+    let o := fun t => (uartRx tw).out (runFn (uartRx tw) sR pad t) (pad t)
+    let R := 4 + rxSampleCycle tw 10
+    (o R).valid = true ∧ (o R).data = (f 0).data ∧ ∀ t, t < R → (o t).valid = false := by
+  intro pad o R
+  have htw : tw < M32 := by unfold M32 at *; omega
+  have hp := txPad_frame tw htw sT hTrun hTtx f hv hd
+  have hp1 : pad 1 = false := by
+    have := hp.2 0 (by unfold M32; omega)
+    simp only [Nat.zero_mul, Nat.zero_div] at this
+    exact this
+  obtain ⟨hidle, hrun4, hc4, hacc4, hrx4, hr04, hdat4⟩ := rx_detect tw sR pad hRrun hr0 hrx hrxd hp.1 hp1
+  -- the line as the receiver's RUN phase sees it
+  let ln : Nat → Bool := fun k => pad (k + 2)
+  have hline : ∀ b, b ≤ 9 → ln (rxSampleCycle tw (b + 1)) = frameBit (f 0).data b :=
+    fun b hb => loopback_line tw h0 h4 sT hTrun hTtx f hv hd b hb
+  have hsplit : ∀ k, runFn (uartRx tw) sR pad (4 + k) =
+      runFn (uartRx tw) (runFn (uartRx tw) sR pad 4) (fun j => ln (j + 2)) k := by
+    intro k
+    rw [runFn_add]
+    congr 1
+    funext j
+    show pad (4 + j) = pad (j + 2 + 2)
+    congr 1; omega
+  have hrec := uart_rx_recovers_partial tw h0 htw ln (runFn (uartRx tw) sR pad 4) hrun4 hc4 hacc4
+    (by rw [hrx4]) (by rw [hr04]) (by rw [hdat4]; exact hdat) (f 0).data hd hline
+  have hfr := uart_rx_frame tw h0 htw ln (runFn (uartRx tw) sR pad 4) hrun4 hc4 hacc4
+    (by rw [hrx4]) (by rw [hr04]) (by rw [hdat4]; exact hdat)
+  simp only at hrec hfr
+  have hoR : ∀ k, o (4 + k) = (uartRx tw).out
+      (runFn (uartRx tw) (runFn (uartRx tw) sR pad 4) (fun j => ln (j + 2)) k) (ln (k + 2)) := by
+    intro k
+    show (uartRx tw).out (runFn (uartRx tw) sR pad (4 + k)) (pad (4 + k)) = _
+    rw [hsplit k]
+    congr 1
+    show pad (4 + k) = pad (k + 2 + 2)
+    congr 1; omega
+  refine ⟨?_, ?_, ?_⟩
+  · show (o (4 + rxSampleCycle tw 10)).valid = true
+    rw [hoR]; exact hrec.1
+  · show (o (4 + rxSampleCycle tw 10)).data = _
+    rw [hoR]; exact hrec.2
+  · intro t ht
+    by_cases h3 : t ≤ 3
+    · show (rxDone (runFn (uartRx tw) sR pad t) && _) = false
+      simp [rxDone, hidle t h3]
+    · obtain ⟨k, rfl⟩ : ∃ k, t = 4 + k := ⟨t - 4, by omega⟩
+      rw [hoR]
+      exact hfr.2.2.2.2 k (by omega)
+
+/-- Negative witness outside the hypothesis: two cycles per bit (`tw = 2^31`), byte 0x55 — the receiver's byte differs. -/
+example :
+    let sT : TxSt := ⟨false, 0, 0, true, ⟨0, false⟩⟩
+    let sR : RxSt := ⟨true, true, true, false, 0, 0, ⟨0, false⟩⟩
+    let f : Nat → TxIn := fun t => ⟨t == 0, 0x55⟩
+    let pad := txPad (2 ^ 31) sT f
+    let R := 4 + rxSampleCycle (2 ^ 31) 10
+    (uartRx (2 ^ 31)).out (runFn (uartRx (2 ^ 31)) sR pad R) (pad R) ≠ ⟨true, 0x55⟩ := by decide +kernel
+
+/-- Non-vacuity: four cycles per bit, byte 0xA5 loops back. -/
+example :
+    let sT : TxSt := ⟨false, 0, 0, true, ⟨0, false⟩⟩
+    let sR : RxSt := ⟨true, true, true, false, 0, 0, ⟨0, false⟩⟩
+    let f : Nat → TxIn := fun t => ⟨t == 0, 0xA5⟩
+    let pad := txPad (2 ^ 30) sT f
+    let R := 4 + rxSampleCycle (2 ^ 30) 10
+    (uartRx (2 ^ 30)).out (runFn (uartRx (2 ^ 30)) sR pad R) (pad R) = ⟨true, 0xA5⟩ := by decide +kernel
+
+/-- **rx_tolerance.**  A transmitter with bit period `P/Q` clock cycles within ±2 % of the receiver's `2^32/tw`
+    (`98·2^32·Q ≤ 100·P·tw ≤ 102·2^32·Q`), any sub-cycle phase `ε/Q` of its start edge relative to the receiver's
+    clock, at least 16 cycles per bit: the synchronised line in RUN cycle `k` is bit `⌊((k+1)·Q + ε)/P⌋` of the frame,
+    and every byte is recovered. -/
+theorem uart_rx_tolerates_2pct (tw P Q ε : Nat) (h0 : 0 < tw) (h16 : 16 * tw ≤ M32) (hε : ε < Q)
+    (hlo : 98 * M32 * Q ≤ 100 * (P * tw)) (hhi : 100 * (P * tw) ≤ 102 * M32 * Q)
+    (d : Nat) (hd : d < 256) (ln : Nat → Bool) (hln : ∀ k, ln k = frameBit d (((k + 1) * Q + ε) / P))
+    (s0 : RxSt) (hrun : s0.run = true) (hc : s0.count = 0) (hacc : s0.acc = ⟨HALF32, false⟩) (hrx : s0.rx = ln 0)
+    (hr0 : s0.r0 = ln 1) (hdat : s0.data < 256) :
+    let R := rxSampleCycle tw 10
+    let o := (uartRx tw).out (runFn (uartRx tw) s0 (fun k => ln (k + 2)) R) (ln (R + 2))
+    o.valid = true ∧ o.data = d := by
+  have htw : tw < M32 := by unfold M32 at *; omega
+  apply uart_rx_recovers_partial tw h0 htw ln s0 hrun hc hacc hrx hr0 hdat d hd
+  intro b hb
+  have h := rx_tolerance_arith tw P Q ε b h0 h16 hε hlo hhi hb
+  rw [hln]
+  congr 1
+  apply Nat.div_eq_of_lt_le
+  · exact h.1
+  · exact h.2
+
+/-! ## SPI: pulse count, slave -/
+
+/-- **Exactly `length` clock pulses.**  Counting rising edges of the clock pad from the first RUN cycle to the return
+    to IDLE gives exactly `L`. -/
+theorem spi_master_pulse_count (c : SpiCfg) (div L w m0 : Nat) (hdiv : 2 ≤ div) (hd16 : div < 65536) (hL : 1 ≤ L)
+    (hLw : L ≤ c.dw) (f : Nat → SpiIn) (hf : ∀ t, SpiHold div L (f t)) (s0 : SpiSt)
+    (h0 : RunInv c div L w m0 (spiSmp f div) 0 0 s0) :
+    countEdges (fun t => ((spiMaster c).out (runFn (spiMaster c) s0 f t) (f t)).clk) (L * div + div / 2) = L := by
+  have h := spi_master_xfer c div L w m0 hdiv hd16 hL hLw f hf s0 h0
+  simp only at h
+  apply pulse_count _ div L hdiv
+  · intro i hi k hk; exact (h.1 i hi k hk).1
+  · intro k hk
+    by_cases hlt : k < div / 2
+    · exact (h.2.1 k hlt).1
+    · have : k = div / 2 := by omega
+      subst this; exact h.2.2.2.1
+
+/-- **spi_slave_xfer.**  While the synchronised chip select is asserted: `length` counts the synchronised rising clock
+    edges (mod 256), the receive register holds the synchronised MOSI values of those edges shifted in MSB first, the
+    transmit register has moved one position per falling edge; `start` is shown when the frame begins (length
+    cleared, word to send loaded) and `irq` when chip select is released. -/
+theorem spi_slave_xfer (dw : Nat) (s : SlvSt) (i0 : SlvIn) (hx : s.xfer = false) (hc : s.s1 = true)
+    (ins : List SlvIn) (hcs : slvCsHeld dw (slvNext dw s i0) ins) :
+    let s1 := slvNext dw s i0
+    let e := (spiSlave dw).runFrom s1 ins
+    ((spiSlave dw).out s i0).start = true ∧
+    e.length = (slvSamples dw s1 ins).length % 256 ∧
+    e.rx = shiftIn dw s1.rx (slvSamples dw s1 ins) ∧
+    e.misoData % 2 ^ dw = (i0.tx * 2 ^ slvFalls dw s1 ins) % 2 ^ dw ∧
+    (e.s1 = false → ∀ j, ((spiSlave dw).out e j).irq = true ∧ (slvNext dw e j).xfer = false) := by
+  intro s1 e
+  obtain ⟨hst, _, hx1, hl1, hm1⟩ := slv_frame_start dw s i0 hx hc
+  have h := slv_frame_run dw ins s1 hx1 (by rw [hl1]; omega) hcs
+  refine ⟨hst, ?_, h.2.2.1, ?_, ?_⟩
+  · rw [h.2.1, hl1, Nat.zero_add]
+  · rw [h.2.2.2, hm1]
+  · intro he j
+    have := slv_frame_end dw e j h.1 he
+    exact ⟨this.1, this.2.1⟩
+
+/-! ## I2C: the write command bit by bit -/
+
+/-- **Write.**  From WRITE0 with 8 bits to go (the state right after a write command), counting enabled FSM steps:
+    for `j < 8`, step `2j+1` has SCL low and SDA = bit `7 − j` of the byte (MSB first), step `2j+2` has SCL high with
+    SDA unchanged; step 17 releases SDA (SCL low), step 18 raises SCL for the acknowledge, step 19 lowers it, stores
+    `ack = ¬sda_i` and is back in IDLE. -/
+theorem i2c_write_sequence (s : I2cSt) (f : Nat → I2cIn) (hf : s.fsm = .write0) (hb : s.bits = 8) (hd : s.data < 256) :
+    (∀ j, j < 8 →
+      (i2cSteps s f (2 * j + 1)).scl = false ∧ (i2cSteps s f (2 * j + 1)).sda = s.data.testBit (7 - j) ∧
+      (i2cSteps s f (2 * j + 2)).scl = true ∧ (i2cSteps s f (2 * j + 2)).sda = s.data.testBit (7 - j)) ∧
+    (i2cSteps s f 17).scl = false ∧ (i2cSteps s f 17).sda = true ∧
+    (i2cSteps s f 18).scl = true ∧ (i2cSteps s f 18).sda = true ∧
+    (i2cSteps s f 19).scl = false ∧ (i2cSteps s f 19).ack = !(f 18).sdaI ∧ (i2cSteps s f 19).fsm = .idle :=
+  ⟨fun j hj => i2c_write_bits s f hf hb hd j hj, i2c_write_ack s f hf hb⟩
 
 end Litex.C19
